@@ -117,6 +117,7 @@ class Result(object):
         self.reads = 0
         self.short_reads = 0
         self.tree_ok = True
+        self.logtap = None
 
 
 def exc_sig(e):
@@ -153,8 +154,10 @@ def validate(text, sinks=('ack',), charset='E', plan=None, eof=None, clock=None,
     clock = clock or seams.SimClock([1096588800.0], log)
     rand = rand or seams.SimRandom([123456789], 0, log)
     tap = seams.ErrTap()
+    logtap = seams.LogTap()
+    res.logtap = logtap
     try:
-        with tap.patched(), clock.patched(), rand.patched(), seams.bufsize(bufsize):
+        with tap.patched(), clock.patched(), rand.patched(), seams.bufsize(bufsize), logtap.patched():
             res.verdict = pyx12.x12n_document.x12n_document(param, src, fd_ack, fd_html, fd_xml, None, map_path, callback)
     except seams.SimStall as e:
         res.exc = e
